@@ -172,6 +172,9 @@ func merkleCase0(h *hctx, leaves [][]byte, seedForReplay uint64, tamper bool) {
 			index = uint32(i) | 1<<uint(r.Range(8, 31))
 		case 6:
 			what = "sibling-flip"
+			if len(proof) == 0 { // (a tree with empty proofs is reported elsewhere; no harness panic here)
+				proof = append(proof, leafHash(leaf))
+			}
 			j := r.Intn(len(proof))
 			proof[j][r.Intn(32)] ^= 1 << uint(r.Intn(8))
 		case 7:
@@ -179,8 +182,10 @@ func merkleCase0(h *hctx, leaves [][]byte, seedForReplay uint64, tamper bool) {
 			if len(proof) >= 2 {
 				a, b := r.Intn(len(proof)), r.Intn(len(proof))
 				proof[a], proof[b] = proof[b], proof[a]
-			} else {
+			} else if len(proof) == 1 {
 				proof[0] = leafHash(leaf)
+			} else {
+				proof = append(proof, leafHash(leaf))
 			}
 		case 8:
 			what = "proof-shorter"
